@@ -23,6 +23,9 @@ pub enum Fault {
     FailBefore,
     /// bulk calls: write the first `n` items, then fail reporting exactly those ids
     Partial(usize),
+    /// bulk calls: write item i iff bit (i % 64) of the mask is set, then fail reporting exactly those ids
+    /// (a backend that skips the rows it cannot write and carries on)
+    Subset(u64),
 }
 
 pub type Entry = (HLCTimestamp, Option<Vec<u8>>);
@@ -188,10 +191,11 @@ impl Storage for ModelStore {
     ) -> Result<(), BulkMutationError<Self::Error>> {
         let keys: Vec<Key> = keys.collect();
         let gate = self.gate().map_err(BulkMutationError::empty_with_error)?;
-        let (limit, fail, park) = match gate {
-            Gate::Proceed { park } => (keys.len(), false, park),
-            Gate::Fail(Fault::FailBefore) => (0, true, false),
-            Gate::Fail(Fault::Partial(n)) => (n.min(keys.len()), true, false),
+        let (keep, fail, park): (Box<dyn Fn(usize) -> bool + Send>, bool, bool) = match gate {
+            Gate::Proceed { park } => (Box::new(|_| true), false, park),
+            Gate::Fail(Fault::FailBefore) => (Box::new(|_| false), true, false),
+            Gate::Fail(Fault::Partial(n)) => (Box::new(move |i| i < n), true, false),
+            Gate::Fail(Fault::Subset(m)) => (Box::new(move |i| (m >> (i % 64)) & 1 == 1), true, false),
         };
         let mut done = vec![];
         {
@@ -199,7 +203,7 @@ impl Storage for ModelStore {
             g.keyspaces.insert(keyspace.to_string());
             let ks = g.data.entry(keyspace.to_string()).or_default();
             let mut removed_live = 0;
-            for k in keys.iter().take(limit) {
+            for k in keys.iter().enumerate().filter(|(i, _)| keep(*i)).map(|(_, k)| k) {
                 if matches!(ks.get(k), Some((_, Some(_)))) {
                     removed_live += 1;
                 }
@@ -242,21 +246,22 @@ impl Storage for ModelStore {
     ) -> Result<(), BulkMutationError<Self::Error>> {
         let docs: Vec<Document> = documents.collect();
         let gate = self.gate().map_err(BulkMutationError::empty_with_error)?;
-        let (limit, fail, park) = match gate {
-            Gate::Proceed { park } => (docs.len(), false, park),
-            Gate::Fail(Fault::FailBefore) => (0, true, false),
-            Gate::Fail(Fault::Partial(n)) => (n.min(docs.len()), true, false),
+        let (keep, fail, park): (Box<dyn Fn(usize) -> bool + Send>, bool, bool) = match gate {
+            Gate::Proceed { park } => (Box::new(|_| true), false, park),
+            Gate::Fail(Fault::FailBefore) => (Box::new(|_| false), true, false),
+            Gate::Fail(Fault::Partial(n)) => (Box::new(move |i| i < n), true, false),
+            Gate::Fail(Fault::Subset(m)) => (Box::new(move |i| (m >> (i % 64)) & 1 == 1), true, false),
         };
         let mut done = vec![];
         {
             let mut g = self.inner.lock();
             g.keyspaces.insert(keyspace.to_string());
-            for d in docs.iter().take(limit) {
+            for d in docs.iter().enumerate().filter(|(i, _)| keep(*i)).map(|(_, d)| d) {
                 g.log_seq.push(WRITE_SEQ.fetch_add(1, std::sync::atomic::Ordering::SeqCst));
                 g.log.push((keyspace.to_string(), d.id(), d.last_updated(), Some(d.data().to_vec())));
             }
             let ks = g.data.entry(keyspace.to_string()).or_default();
-            for d in docs.iter().take(limit) {
+            for d in docs.iter().enumerate().filter(|(i, _)| keep(*i)).map(|(_, d)| d) {
                 ks.insert(d.id(), (d.last_updated(), Some(d.data().to_vec())));
                 done.push(d.id());
             }
@@ -292,21 +297,22 @@ impl Storage for ModelStore {
     ) -> Result<(), BulkMutationError<Self::Error>> {
         let docs: Vec<DocumentMetadata> = documents.collect();
         let gate = self.gate().map_err(BulkMutationError::empty_with_error)?;
-        let (limit, fail, park) = match gate {
-            Gate::Proceed { park } => (docs.len(), false, park),
-            Gate::Fail(Fault::FailBefore) => (0, true, false),
-            Gate::Fail(Fault::Partial(n)) => (n.min(docs.len()), true, false),
+        let (keep, fail, park): (Box<dyn Fn(usize) -> bool + Send>, bool, bool) = match gate {
+            Gate::Proceed { park } => (Box::new(|_| true), false, park),
+            Gate::Fail(Fault::FailBefore) => (Box::new(|_| false), true, false),
+            Gate::Fail(Fault::Partial(n)) => (Box::new(move |i| i < n), true, false),
+            Gate::Fail(Fault::Subset(m)) => (Box::new(move |i| (m >> (i % 64)) & 1 == 1), true, false),
         };
         let mut done = vec![];
         {
             let mut g = self.inner.lock();
             g.keyspaces.insert(keyspace.to_string());
-            for d in docs.iter().take(limit) {
+            for d in docs.iter().enumerate().filter(|(i, _)| keep(*i)).map(|(_, d)| d) {
                 g.log_seq.push(WRITE_SEQ.fetch_add(1, std::sync::atomic::Ordering::SeqCst));
                 g.log.push((keyspace.to_string(), d.id, d.last_updated, None));
             }
             let ks = g.data.entry(keyspace.to_string()).or_default();
-            for d in docs.iter().take(limit) {
+            for d in docs.iter().enumerate().filter(|(i, _)| keep(*i)).map(|(_, d)| d) {
                 ks.insert(d.id, (d.last_updated, None));
                 done.push(d.id);
             }
